@@ -10,6 +10,8 @@
 // Lines written for the Lean driver (Drv/C06.lean):
 //
 //	batch <path> <format> <f|n> <seed> <mod> <lo> <hi>  TAB  cases=<n> <obs>@<kind>*<count> ...
+//	allfmt <path> <mut> <f|n>                           TAB  cases=<n> …    (one input with every format and probe)
+//	fields <path> <format> <f|n> <seed> <mod> <max> <pats> TAB  cases=<n> …    (field-aware saturation, see worker.go)
 //	d|i <path> <mut> <format> <f|n>                     TAB  <obs>          (every panic / resource case, every `i` case, replays)
 //	core <prim> <arg> <buf bytes> <pos bits> <f|n>      TAB  ok | err:io | err:decoder | panic:… | resource:…
 //
@@ -179,6 +181,10 @@ type tierParams struct {
 	fullBelow   int // thorough: files up to this size get the whole family (mod 1) for own formats and probe
 	chunk       int // selected cases per batch job (expected)
 	interpEvery int
+	modFields   int  // 1/mod sample of the field-aware saturation (fields jobs) of own formats
+	maxFields   int  // leaf fields considered per (file, format)
+	pairSeeds   bool // deep-nesting seeds also from two-byte patterns
+	fieldPats   string
 }
 
 func genJobs(r *hlib.Rand, seed uint64, tp tierParams, o *hlib.Out, workDir string) []*job {
@@ -271,6 +277,37 @@ func genJobs(r *hlib.Rand, seed uint64, tp tierParams, o *hlib.Out, workDir stri
 		}
 		add(f, "probe", mod, false)
 	}
+	// field-aware length saturation: every decoded leaf field of the unchanged file set to 0 / 1 / all ones /
+	// sign bit only / max signed, for the file's own formats
+	for _, i := range chosen {
+		f := files[i]
+		for _, n := range f.own {
+			for _, force := range []string{"n", "f"} {
+				jobs = append(jobs, &job{text: fmt.Sprintf("fields %s %s %s %d %d %d %s", f.path, n, force, seed, tp.modFields, tp.maxFields, tp.fieldPats),
+					size: f.size, format: n})
+			}
+		}
+	}
+	// deep nesting seeds: one byte (thorough: also byte pairs with a boundary value) repeated 300 times, with
+	// every format and probe, force on and off; a case whose error is raised deeper than the 256 captured
+	// stack frames is repeated through the interpreter path (error rendering: `._error`, dv)
+	var pats []string
+	for a := 0; a < 256; a++ {
+		pats = append(pats, fmt.Sprintf("%02x", a))
+	}
+	if tp.pairSeeds {
+		for a := 0; a < 256; a++ {
+			for _, b := range overwriteVals {
+				pats = append(pats, fmt.Sprintf("%02x%02x", a, b), fmt.Sprintf("%02x%02x", b, a))
+			}
+		}
+	}
+	for _, p := range pats {
+		for _, force := range []string{"n", "f"} {
+			jobs = append(jobs, &job{text: "allfmt gen:rep:" + p + ":300 id " + force, size: 300})
+		}
+	}
+	o.Stat("nesting_seed_patterns", len(pats))
 	// every other format for the 40 smallest files (>= 32 bytes, at most 3 per directory so that they differ)
 	small := append([]int(nil), chosen...)
 	sort.SliceStable(small, func(a, b int) bool { return files[small[a]].size < files[small[b]].size })
@@ -341,7 +378,7 @@ func emit(o *hlib.Out, jobs []*job) {
 		if j.restarts > 0 {
 			o.Stat("worker_restarts", j.restarts)
 		}
-		if strings.HasPrefix(j.text, "batch ") {
+		if isMulti(j.text) {
 			keys := make([]string, 0, len(j.hist))
 			n, mutated := 0, 0
 			for k, c := range j.hist {
@@ -462,9 +499,9 @@ func main() {
 			jobs = append(jobs, &job{text: l})
 		}
 	} else {
-		tp := tierParams{perDir: 12, modOwn: 50, modCross: 400, chunk: 300}
+		tp := tierParams{perDir: 12, modOwn: 50, modCross: 400, chunk: 300, modFields: 1, maxFields: 600, fieldPats: "zm"}
 		if cfg.Thorough() {
-			tp = tierParams{perDir: 60, modOwn: 6, modCross: 40, fullBelow: 400, chunk: 400}
+			tp = tierParams{perDir: 60, modOwn: 6, modCross: 40, fullBelow: 400, chunk: 400, modFields: 1, maxFields: 4000, pairSeeds: true, fieldPats: "zo1ms"}
 		}
 		if v, err := strconv.Atoi(os.Getenv("VERIF_C06_MOD")); err == nil && v > 0 {
 			tp.modOwn = v
@@ -495,8 +532,11 @@ func main() {
 		if *count {
 			total := 0
 			for _, j := range bulk {
-				b, _ := parseBatch(j.text)
-				total += (b.hi - b.lo + b.mod - 1) / b.mod
+				if b, err := parseBatch(j.text); err == nil && b.mod > 0 {
+					total += (b.hi - b.lo + b.mod - 1) / b.mod
+				} else if strings.HasPrefix(j.text, "allfmt ") {
+					total += len(allFormatGroups())
+				}
 			}
 			fmt.Printf("jobs=%d expected_cases=%d\n", len(jobs), total)
 			return
